@@ -4,7 +4,7 @@ from vlib import enc
 from checklib import Scenario
 
 RULE = ("every field kind (key, value, continuation line, section, comment before, comment after, file name, directory name, "
-        "option string) x lengths {1, BUFSIZ-2..BUFSIZ+2, 2*BUFSIZ, 64Ki (quick) / 1Mi (thorough)} and {NAME_MAX-1, NAME_MAX} "
+        "full path of the main file of a layered read at PATH_MAX-1 and just below, option string) x lengths {1, BUFSIZ-2..BUFSIZ+2, 2*BUFSIZ, 64Ki (quick) / 1Mi (thorough)} and {NAME_MAX-1, NAME_MAX} "
         "x every API copying that field: read, plain getter, extended getter, merge, write + re-read, setters, layered read; "
         "the oracle checks the LENGTH of what comes back against what was put in; values also against the model; "
         "distinct by (field, length)")
@@ -49,6 +49,28 @@ def gen(rng, tier):
                 "readdirs 0 %s %s %s x636f6e66 x3d x23" % (enc(d), enc(b"/nowhere"), enc(name)), "getall 0", "path 0"]
         s = Scenario(cmds, tags=("names",)); s.field, s.n = "names", n
         out.append(s)
+    # the main file of a layered read at the longest names the system accepts: the REAL path of the /etc-side file is
+    # PATH_MAX-1 (4095), just below, and far below; the vendor side holds a file of the same name that must lose
+    rl = vlib.root_len()
+    for total in (4095, 4094, 4093, 4000, 2049):
+        tail = b"/app.conf"
+        room = total - rl - len(b"/e") - len(tail)          # bytes for the nested directories "/ddd.../ddd..."
+        comps = []
+        while room > 0:
+            c = min(room - 1, 200)
+            if c <= 0: break
+            if room - 1 - c == 1: c -= 1                     # never leave room for a lone '/'
+            comps.append(b"d" * c); room -= c + 1
+        etc = b"/e" + b"".join(b"/" + c for c in comps)
+        assert rl + len(etc) + len(tail) == total, (rl, len(etc), total)
+        cmds = ["fsfile %s %s 0 0" % (enc(b"/u/app.conf"), enc(b"KEY=vendor\n")),
+                "fsfile %s %s 0 0" % (enc(etc + tail), enc(b"KEY=etc\nONLY_ETC=1\n")),
+                "readdirs 0 %s %s %s x636f6e66 x3d x23" % (enc(b"/u"), enc(etc), enc(b"app")), "getall 0",
+                "history %s %s %s x636f6e66 x3d x23" % (enc(b"/u"), enc(etc), enc(b"app")),
+                "newopts 1 " + enc(b"PARSING_DIRS=/u:" + etc), "readconfig 1 - - %s x636f6e66 x3d x23" % enc(b"app"), "getall 1",
+                "readfile 2 %s x3d x23" % enc(etc + tail), "path 2"]
+        s = Scenario(cmds, tags=("pathmax",)); s.field, s.n = "pathmax", total
+        out.append(s)
     for n in (100, 5000, 70000):
         opts = b"PARSING_DIRS=" + b":".join(b"/p%d" % i + b"x" * 20 for i in range(n // 25)) + b";ROOT_PREFIX=/" + b"r" * n
         s = Scenario(["newopts 0 " + enc(opts), "opts 0"], tags=("options",)); s.field, s.n = "options", n
@@ -65,6 +87,8 @@ def oracle(s, ilines):
             longest = max((len(t) for t in l.replace(";", " ").replace(",", " ").replace("=", " ").split()), default=0)
             if field in ("comment-before", "comment-after") and idx == 5: continue   # merge keeps comments too, checked via model
             if longest < 2 * n: return "%s of %d bytes came back shorter through `%s`: longest token %d bytes" % (field, n, s.cmds[idx], longest // 2)
+    if field == "pathmax":
+        if "x4b4559" not in ilines[3] or enc(b"etc") [1:] not in ilines[3]: return "main file with a real path of %d bytes not used by econf_readDirs: %s" % (n, ilines[3][:200])
     if field == "setter":
         for idx in (2, 4):
             l = ilines[idx]
@@ -73,4 +97,4 @@ def oracle(s, ilines):
     return None
 
 def nontrivial(s, mlines):
-    return s.n >= BUFSIZ - 2
+    return s.n >= 4000
